@@ -178,6 +178,11 @@ func RunOnce(chk FullCheck, sc *Scenario, tag string, replay bool) (*Violation, 
 			}
 		}
 	}
+	if v != nil {
+		if el := w.ServerErrorLines(12); el != "" {
+			v.Detail += "\n--- server log (ERROR/CRITICAL lines) ---\n" + el
+		}
+	}
 	if v == nil && err == nil && len(st.Panic500) > 0 && !chk.AllowsPanic500(sc) {
 		v = &Violation{Prop: "C20", Oracle: "panic-500", Sig: "panic-500:" + panicSig(st.Panic500[0]), Detail: st.Panic500[0]}
 	}
